@@ -38,13 +38,17 @@ CELLS = [
     # likelihood exactly zero (log L = -inf) over 82 % of the prior: a legitimate input (nessai only warns)
     ("std-accumulate-weights", "std", "G2u", {"accumulate_weights": True}),
     ("std-accumulate-weights-G4u", "std", "G4u", {"accumulate_weights": True}),
+    # numerically extreme likelihood magnitudes (additive constants -2000 / +900 in log L): the evidence and its uncertainty must stay finite and calibrated
+    ("ins-logL-minus-2000", "ins", "G2o", {"nlive": 500, "min_samples": 100}),
+    ("ins-logL-plus-900", "ins", "G2p", {"nlive": 500, "min_samples": 100}),
+    ("std-logL-minus-2000", "std", "G2o", {}),
     ("std-hard-cut", "std", "G2h", {}),
     ("ins-hard-cut", "ins", "G2h", {"nlive": 500, "min_samples": 100}),
     ("std-flat-direction-prime-prior", "std", "G2f", {"reparameterisations": {"x0": {"reparameterisation": "rescaletobounds", "rescale_bounds": [0.0, 1.0], "prior": "uniform"},
                                                                               "x1": {"reparameterisation": "rescaletobounds", "rescale_bounds": [0.0, 1.0], "prior": "uniform"}}}),
 ]
 QUICK = ["std-default", "std-no-uninformed", "std-analytic-nonuniform", "std-augmented", "std-maf-logit-t", "std-narrow-prior-box-draws", "ins-default", "ins-strict-nonuniform", "ins-no-iid",
-         "ins-constrained-prior", "std-augmented-4-dims", "std-nball", "std-hard-cut", "ins-hard-cut", "std-accumulate-weights-G4u"]
+         "ins-constrained-prior", "std-augmented-4-dims", "std-nball", "std-hard-cut", "ins-hard-cut", "std-accumulate-weights-G4u", "ins-logL-minus-2000"]
 
 
 def calib_worker(case):
